@@ -23,9 +23,9 @@ CHECKS.update({
  "C05": ("snapmc", LAT + " over valid polygons AND every vertex sequence (repeats, 1-3 rings) of the invalid scopes, all four (keep, reverse) combinations per input; structural invariants + keep/no-keep differential",
    "Structural invariants of every returned ring and the keep/no-keep differential are checked on every input of the scopes, valid or not.", SNAP_NOTE + " Orientation is judged only for returned rings that are simple and have non-zero area.", "3/C05"),
  "C08": ("snapmc", LAT + " on 3- and 4-level round grids x every non-empty id subset; oracle: per-id result equals the result of requesting that id alone",
-   "Every subset of ids {0..3} is requested for every input of the scopes and compared id by id with the single-id request (presence included).", SNAP_NOTE, "3/C08"),
+   "Every subset of ids {0..3} is requested for every input of the scopes and compared id by id with the single-id request (presence included); id lists as written (descending, largest id not last, duplicates) on a 3-level grid; the multi-level families (thin frames, comb-sided holes) x every subset of {0,1,2}.", SNAP_NOTE, "3/C08"),
  "C09": ("snapmc", "exhaustive enumeration of (grid, id, border, distance, vertex position, ring, flag) through the real snap.SnapPolygon vs half-open extent test on specified fixed-point quantisation",
-   "19 grids (two origins, both corners of origin, two depths, two tile widths, RD at three ids) x 4 borders x 42 distances from 1e-10 to the whole extent x outside/inside x every vertex position x both flag values.", "Trusted: the extent of each grid computed from its definition; quantisation as specified (1e-10, truncating).", "3/C09"),
+   "19 grids (two origins, both corners of origin, two depths, two tile widths, RD at three ids) x 4 borders x 42 distances from 1e-10 to the whole extent x outside/inside x every vertex position, and x 4 corners x 35 pairs of distances from the two borders of the corner; each with the id alone and together with id 0 (both orders), keep on/off, both values of the ignore flag.", "Trusted: the extent of each grid computed from its definition; quantisation as specified (1e-10, truncating).", "3/C09"),
 })
 CHECKS.update({
  "C14": ("tmsmc", "exhaustive enumeration of (built-in set, deepest id) and of every single-level perturbation of every accepted set through the real validateTileMatrixSet (overlay-added in-package test), the real binary and IsQuadTree, against an exact-decimal reference quadtree predicate; pixel size observed through the index",
@@ -56,10 +56,10 @@ CHECKS.update({
 })
 CHECKS.update({
  "C12": ("gpkgmc", "exhaustive enumeration of a finite lattice of (page size, feature count, content pattern, schema, geometry type) through the real TargetGeopackage on real SQLite files, read back with SQL and compared with the list of features handed over",
-   "Page sizes 1..3 (thorough 6) x counts 0..3p+1 x all content sequences over {small, extent-extending, empty} up to length 5 and all placements of <= 2 special features beyond x two schemas (geometry column in the middle, NULL patterns) x polygon/multipolygon/point: rows, order, attributes, geometry, spatial index entries, recorded extent, table definition and SRS.",
+   "Page sizes 1..3 (thorough 6) x counts 0..3p+1 x all content sequences over {small, extent-extending, empty} up to length 5 and all placements of <= 2 special features beyond x two schemas (geometry column in the middle, NULL patterns, values that conversions could damage) x polygon/multipolygon/point; plus two tables written one after the other through one target (all pairs of nine short patterns x page sizes 1-2): rows, order, attributes, geometry, spatial index entries, recorded extent, table definition and SRS.",
    "Trusted: the spatialite driver stub (plain SQLite + pure-Go ST_ functions) stands in for libspatialite; a log.Fatal inside texel is reported as a violation with the case that was running.", "3/C12"),
  "C13": ("gpkgmc", "exhaustive enumeration of a union of fully enumerated sub-lattices of invocations of the real texel binary (built from the working tree with the driver stub by overlay) on generated source GeoPackages; every produced file compared table by table, row by row with a reference computed by the library from the decoded source rows",
-   "Id lists (single, descending, three, duplicates) x keep x reverse x page sizes; all 8 flag combinations via command line and environment, with and without an outside-grid feature; 5 target path shapes x fresh/overwrite/pre-existing+overwrite; overwrite with every non-empty proper subset of the requested targets pre-existing x three id lists; a family of 172 (thorough 516) sources (every sequence of <= 2 polygon kinds x multipolygon kinds, line/point tables); exact file set, rows, attributes, geometries, other tables copied, nothing of an old file survives.",
+   "Id lists (single, descending, three, duplicates) x keep x reverse x page sizes; all 8 flag combinations via command line and environment, with and without an outside-grid feature; 5 target path shapes x fresh/overwrite/pre-existing+overwrite; overwrite with every non-empty proper subset of the requested targets pre-existing x three id lists; every ordering of every subset of >= 2 of the four table kinds (polygon, multipolygon, point, line) and sources with a table without rows; a family of 172 (thorough 516) sources (every sequence of <= 2 polygon kinds x multipolygon kinds, line/point tables); exact file set, rows, attributes, geometries, other tables copied, nothing of an old file survives.",
    "Trusted: driver stub; reference uses snap.SnapPolygon of the same tree (C13 checks plumbing, not snapping).", "3/C13"),
 })
 CHECKS.update({
